@@ -663,13 +663,46 @@ Proof.
       destruct (drain (S (length (builders s1))) s1 out_nil) as [s2 o]. exact H2.
 Qed.
 
+
+(* ---------- a build whose callback finds the stream closed ---------- *)
+Lemma do_touch_ph s size : ph (do_touch s size) = ph s.
+Proof. unfold do_touch. destruct (done s); reflexivity. Qed.
+Lemma do_touch_inv p s size E A : InvS p s E A -> InvS p (do_touch s size) E A.
+Proof.
+  unfold InvS, do_touch. intro H. destruct (done s); [exact H|].
+  destruct (match last_opt (builders s) with Some last => if size =? 0 then false else max_block_size <? b_blk last + size | None => true end);
+    cbn [builders next_topic closed]; [apply inv_add_new, H | exact H].
+Qed.
+Lemma do_touch_cinv s size : CInv s -> AccInvS (do_touch s size) /\ QInv (do_touch s size).
+Proof.
+  intro HC. unfold do_touch. destruct (done s) eqn:Ed; [destruct HC as [HA [HQ _]]; split; assumption|].
+  destruct HC as [[HF Ha] [HQ _]].
+  set (need_new := match last_opt (builders s) with Some last => if size =? 0 then false else max_block_size <? b_blk last + size | None => true end).
+  destruct need_new eqn:En.
+  - split.
+    + split; cbn [builders alloc ph MsgQueue.done].
+      * apply Forall_app. split; [exact HF | constructor; [split; simpl; [lia | reflexivity] | constructor]].
+      * rewrite qsum_app. cbn [qsum fold_right bld_new b_blk]. destruct (ph s); try lia; try (destruct Ha as [Hb Ha]; split; [exact Hb | lia]).
+        destruct Ha as (_ & Hd & _). congruence.
+    + unfold QInv. cbn [work builders]. rewrite last_opt_snoc. cbn [bld_empty bld_new b_blocks b_resp]. intro Hw.
+      apply Forall_app. split; [apply HQ, Hw | constructor; [reflexivity | constructor]].
+  - split; [split; [exact HF|]; cbn [ph alloc builders MsgQueue.done]; destruct (ph s); try exact Ha; destruct Ha as (_ & Hd & _); congruence|].
+    unfold QInv. cbn [work builders].
+    destruct (last_opt (builders s)) as [l|]; [|exact HQ]. destruct (bld_empty l); [exact HQ | discriminate].
+Qed.
+
 Lemma set_done_pend s : pend_of (set_done s) = pend_of s.
 Proof. reflexivity. Qed.
 
 Lemma qstep16_inv s l E A : InvS (pend_of s) s E A ->
   InvS (pend_of (fst (qstep16 s l))) (fst (qstep16 s l)) (E ++ q_events (snd (qstep16 s l))) (A ++ opt_list (attach16 s l)).
 Proof.
-  intro H. destruct l as [l|r ops]; [apply qstep_inv, H|].
+  intro H. destruct l as [l|r ops|sz]; [apply qstep_inv, H| |].
+  2:{ unfold qstep16. cbn [attach16 build_of opt_list]. rewrite app_nil_r.
+      pose proof (do_touch_inv _ s sz E A H) as H1. pose proof (do_touch_ph s sz) as Hp.
+      assert (Hpe : pend_of (do_touch s sz) = pend_of s) by (unfold pend_of; now rewrite Hp).
+      rewrite <- Hpe in H1. destruct (ph (do_touch s sz)) eqn:Ep; try (cbn [fst snd out_nil q_events]; rewrite app_nil_r; exact H1).
+      rewrite (pend_idle _ Ep) in H1. apply (run_loop_inv _ _ out_nil E); [cbn; rewrite app_nil_r; exact H1 | exact Ep]. }
   unfold qstep16. rewrite attach16_buildshut.
   pose proof (do_build_inv _ s r ops E A H) as [H1 Ho]. pose proof (do_build_pend s r ops) as Hpe.
   destruct (do_build s r ops) as [s1 o]. cbn [fst snd] in *. subst o. rewrite <- Hpe in H1.
@@ -682,7 +715,10 @@ Qed.
 
 Lemma qstep16_cinv s l : CInv s -> CInv (fst (qstep16 s l)).
 Proof.
-  intros [HA HP]. destruct l as [l|r ops]; [apply qstep_cinv; split; assumption|].
+  intros [HA HP]. destruct l as [l|r ops|sz]; [apply qstep_cinv; split; assumption| |].
+  2:{ unfold qstep16. destruct (do_touch_cinv s sz (conj HA HP)) as [HA1 HQ1].
+      destruct (ph (do_touch s sz)) eqn:Ep; try (cbn [fst]; split; [exact HA1 | split; [exact HQ1 | rewrite Ep; discriminate]]).
+      split; [apply run_loop_from; assumption | apply parked_loop, HQ1]. }
   unfold qstep16. pose proof (do_build_acc s r ops HA) as [HA1 Hp1]. destruct HP as [HQ HPi].
   pose proof (do_build_q s r ops HQ) as HQ1.
   destruct (do_build s r ops) as [s1 o]. cbn [fst] in *.
@@ -713,10 +749,10 @@ Qed.
 
 Lemma qstep16_h_inv s l h E A : InvS (pend_of s) s E A ->
   InvS (pend_of (fst (qstep16_h s l h))) (fst (qstep16_h s l h)) (E ++ q_events (snd (qstep16_h s l h))) (A ++ opt_list (attach16 s l)).
-Proof. destruct l as [l|r ops]; [apply qstep_h_inv | apply (qstep16_inv s (LBuildShut r ops))]. Qed.
+Proof. destruct l as [l|r ops|sz]; [apply qstep_h_inv | apply (qstep16_inv s (LBuildShut r ops)) | apply (qstep16_inv s (LBuildClosed sz))]. Qed.
 
 Lemma qstep16_h_cinv s l h : CInv s -> CInv (fst (qstep16_h s l h)).
-Proof. destruct l as [l|r ops]; [apply qstep_h_cinv | apply (qstep16_cinv s (LBuildShut r ops))]. Qed.
+Proof. destruct l as [l|r ops|sz]; [apply qstep_h_cinv | apply (qstep16_cinv s (LBuildShut r ops)) | apply (qstep16_cinv s (LBuildClosed sz))]. Qed.
 
 (* ---------- histories ---------- *)
 Definition GInv (g : g16) : Prop := InvS (pend_of (g_s g)) (g_s g) (g_ev g) (g_att g) /\ CInv (g_s g).
@@ -878,7 +914,11 @@ Qed.
 
 Lemma qstep16_rinv s l : RInv s -> RInv (fst (qstep16 s l)).
 Proof.
-  intro H. destruct l as [l|r ops]; [apply qstep_rinv, H|]. unfold qstep16.
+  intro H. destruct l as [l|r ops|sz]; [apply qstep_rinv, H| |].
+  2:{ unfold qstep16. pose proof (do_touch_ph s sz) as Hp.
+      assert (HR1 : RInv (do_touch s sz)) by (eapply rinv_ph; [exact Hp | exact H]).
+      destruct (ph (do_touch s sz)) eqn:Ep; try exact HR1. apply run_loop_rank, Ep. }
+  unfold qstep16.
   pose proof (do_build_ph s r ops) as Hp. destruct (do_build s r ops) as [s1 o]. cbn [fst] in *.
   assert (HR1 : RInv (set_done s1)) by (eapply rinv_ph; [|exact H]; cbn; exact Hp).
   destruct (ph s1) eqn:Ep; try exact HR1.
